@@ -107,8 +107,11 @@ func scriptSplitK(seed int64, pc ProcCfg, id RecID) int {
 }
 
 // expectedLeaves walks the scripted processor chain for delivery D towards dst.
-// It returns the leaf paths that must reach dst, and whether the chain rejects the
-// record (error result, or a result kind the engine cannot deliver).
+// paths: every leaf the chain can hand to dst (a leaf is derivable even when a
+// sibling piece or a later stage of another piece fails - the engine delivers
+// sub-batches left to right). rejected: some stage answers some piece with an error
+// (or with a result kind the engine cannot deliver), so the record as a whole must
+// be dead-lettered rather than acknowledged as delivered.
 func (c *Config) expectedLeaves(D delivKey, dst string) (paths []string, rejected bool) {
 	cur := []string{""}
 	for _, pc := range c.chain(D.Src, dst) {
@@ -117,11 +120,12 @@ func (c *Config) expectedLeaves(D delivKey, dst string) (paths []string, rejecte
 			id := RecID{Src: D.Src, Idx: D.Idx, N: D.N, Path: p}
 			switch scriptVerdict(c.Seed, pc, id) {
 			case "error":
-				return nil, true
+				rejected = true
 			case "filter":
 			case "split":
 				if c.Engine == "v1" {
-					return nil, true // fan-out results are refused by the default engine
+					rejected = true // fan-out results are refused by the default engine
+					continue
 				}
 				k := scriptSplitK(c.Seed, pc, id)
 				for j := 0; j < k; j++ {
@@ -133,7 +137,7 @@ func (c *Config) expectedLeaves(D delivKey, dst string) (paths []string, rejecte
 		}
 		cur = next
 	}
-	return cur, false
+	return cur, rejected
 }
 
 // accepted implements C01's accept rule for delivery D at this moment.
@@ -304,7 +308,8 @@ func (o *Oracles) onEvent(w *World, e *Event) {
 						found = true
 					}
 				}
-				if rejected || !found {
+				_ = rejected
+				if !found {
 					w.violate("C08", "unexpected-write", fmt.Sprintf("destination %s received %s which the scripted processor chain does not produce for it", e.Ent, id))
 				}
 			}
@@ -535,6 +540,14 @@ func (o *Oracles) stopRefused(w *World, how string, err error) {
 }
 
 func (o *Oracles) finalChecks(w *World) {
+	// C11 liveness: the run was abandoned because simulated time ran out while nothing
+	// was parked at any seam (every plugin and store call had been served, no stall
+	// fault) and the pipeline is still reported as running: the run can never end.
+	if !w.finished && w.stallCount() == 0 && w.worldParked() == 0 && w.capReason == "time" {
+		if st, _, ok := w.db.durableStatus(PipelineID); ok && (st == 1 || st == 5) && w.inc == w.bootedInc {
+			w.violate("C11", "run-never-ends", fmt.Sprintf("pipeline is still %s after %d ms of simulated idleness with every plugin and store call served; no node is waiting for the outside world", statusName(st), w.now()))
+		}
+	}
 	if w.cfg.Healthy && !w.finished {
 		w.violate("C06", "stop-hang", fmt.Sprintf("healthy run did not complete: steps=%d sim=%dms notes=%v", w.step, w.now(), w.notes))
 	}
